@@ -214,6 +214,11 @@ func (e *Executor) parseQuery(
 			errcode.Set(gqlErr, errcode.ParseFailed)
 			return nil, gqlerror.List{gqlErr}
 		}
+		// Any other parse failure (the parser reports an exceeded token limit as a
+		// plain error) rejects the request as well: the document is incomplete.
+		gqlErr = gqlerror.Errorf("%s", err.Error())
+		errcode.Set(gqlErr, errcode.ParseFailed)
+		return nil, gqlerror.List{gqlErr}
 	}
 	stats.Parsing.End = graphql.Now()
 
